@@ -115,7 +115,7 @@ func checkListing(p *Prog, l *Ledger, keysT, valuesT string) {
 		}
 		m := NewInterpModel(p, "builtin/"+tn)
 		m.EmitTests = true
-		m.KeepAsEvent = func(c *ssa.Function) bool { return c.Name() == "sortedKeys" }
+		m.KeepAsEvent = func(c *ssa.Function) bool { return fnName(c) == "sortedKeys" }
 		m.Explore(fn, []AV{Sym("n"), Sym("i"), Sym("arguments")}, nil)
 		inf := &info{elems: map[string]bool{}, fn: fn}
 		for _, e := range m.G.Events("next") {
